@@ -9,7 +9,7 @@ base=/var/tmp/svbase-$h
 (
   flock 9
   if [ ! -f "$base/.built" ]; then
-    rm -rf /var/tmp/svbase-*
+    find /var/tmp -maxdepth 1 -name "svbase-*" -mmin +90 -exec rm -rf {} +
     mkdir -p "$base"
     git -C /verif archive HEAD | tar -x -C "$base"
     (cd "$base" && ./sv setup >/dev/null 2>&1) && touch "$base/.built"
